@@ -5,9 +5,13 @@ import MuduoVerif.Proofs.ConnSkelTie
 # C13 — write-complete and high-water-mark callbacks track the unsent backlog exactly
 
 Property theorems only (lemmas: `Proofs/ConnCb.lean`, `Proofs/ConnBlocks.lean`).
-The backlog is `outBuf.length`.  A callback is *scheduled* by appending `Task.writeComplete` /
-`Task.highWater n` to the loop's functor queue (`pending`) and *runs* when `runTask` reaches it
-(event `wc` / `hwm n`).  The scheduling theorems hold for **every** state, block and kernel
+The backlog is `outBuf.length`.  A callback is *scheduled* by appending `Task.writeComplete cb` /
+`Task.highWater cb n` to the loop's functor queue (`pending`) and *runs* when `runTask` reaches it
+(event `wc k` / `hwm k n`).  `cb : Bound` is what the functor carries of the user's callback: `.val k` = a copy
+of the `std::function` installed at that moment (identity `k`; `setWriteCompleteCallback` /
+`setHighWaterMarkCallback(cb, mark)` are the operations `Act.setWc k` / `Act.setHwm k mark`, `k = 0` = empty),
+`.ref` = a reference to the member, read when the functor runs.  Which of the two the source does is extracted
+(`wcBindSend`, `wcBindDrain`, `hwmBind`); the theorems below need `byValue`.  The scheduling theorems hold for **every** state, block and kernel
 answer — no reachability hypothesis — so they cover all send-size sequences, all marks
 (0 and 1 included) and all acceptance patterns.
 
@@ -24,14 +28,15 @@ open MuduoVerif.Conn MuduoVerif.Gen.Conn
   taken whole by the kernel (the backlog was and stays empty);
 * a high-water callback iff the callback is set and this very send raised the backlog from
   below the mark to at least the mark — and its argument is the resulting backlog;
-and nothing else -/
+and nothing else; the functor carries a copy of the callback installed at this moment (`.val c.wcId` /
+`.val c.hwmId`) and the mark is the one current at this moment (`c.mark`) -/
 theorem send_schedules (c : Conn) (data : Bytes) (q : Bool) :
     let c' := sendInLoop c data q
     c'.pending = c.pending
       ++ (if c.hasWC = true ∧ c.st ≠ .kDisconnected ∧ c.ch.evWrite = false ∧ c.outBuf = []
-            ∧ tookWhole (peekWrite c) data.length = true then [Task.writeComplete] else [])
+            ∧ tookWhole (peekWrite c) data.length = true then [Task.writeComplete (.val c.wcId)] else [])
       ++ (if c.hasHWM = true ∧ c.outBuf.length < c.mark ∧ c.mark ≤ c'.outBuf.length
-            ∧ c.outBuf.length < c'.outBuf.length then [Task.highWater c'.outBuf.length] else []) :=
+            ∧ c.outBuf.length < c'.outBuf.length then [Task.highWater (.val c.hwmId) c'.outBuf.length] else []) :=
   sendInLoop_sched c data q
 
 /-- the kernel "took the block whole": `write` returned at least its length -/
@@ -56,22 +61,22 @@ half-close of a connection in `kDisconnecting` is queued behind it -/
 theorem drain_schedules (c : Conn) (hne : c.outBuf ≠ []) :
     let c' := handleWrite c
     c'.pending = c.pending
-      ++ (if c.hasWC = true ∧ c.ch.evWrite = true ∧ c'.outBuf = [] then [Task.writeComplete] else [])
+      ++ (if c.hasWC = true ∧ c.ch.evWrite = true ∧ c'.outBuf = [] then [Task.writeComplete (.val c.wcId)] else [])
       ++ (if (c.ch.evWrite = true ∧ c'.outBuf = []) ∧ c.st = .kDisconnecting then [Task.drainShutdownInLoop] else []) :=
   handleWrite_sched' c hne
 
 /-- the same without the hypothesis, in terms of the kernel's answer -/
 theorem drain_schedules_all (c : Conn) :
     (handleWrite c).pending = c.pending
-      ++ (if c.hasWC = true ∧ drainsNow c = true then [Task.writeComplete] else [])
+      ++ (if c.hasWC = true ∧ drainsNow c = true then [Task.writeComplete (.val c.wcId)] else [])
       ++ (if drainsNow c = true ∧ c.st = .kDisconnecting then [Task.drainShutdownInLoop] else []) :=
   handleWrite_sched c
 
 /-- **hwm_not_again** (local form): right after a high-water callback was scheduled the backlog is
 at or above the mark, and a send that finds the backlog at or above the mark schedules none -/
 theorem hwm_not_again (c : Conn) (data : Bytes) (q : Bool) (h : c.mark ≤ c.outBuf.length) :
-    ∀ n, Task.highWater n ∉ (sendInLoop c data q).pending.drop c.pending.length := by
-  intro n
+    ∀ b n, Task.highWater b n ∉ (sendInLoop c data q).pending.drop c.pending.length := by
+  intro b n
   have hs := sendInLoop_sched c data q
   simp only at hs
   rw [hs, List.append_assoc, List.drop_left]
@@ -85,18 +90,112 @@ theorem hwm_not_again (c : Conn) (data : Bytes) (q : Bool) (h : c.mark ≤ c.out
 by the loop when it reaches the queued functor -/
 theorem deferred (c : Conn) (f : Bool) (a : Act) :
     (act c f a).trace.take c.trace.length = c.trace ∧
-    ∀ e ∈ (act c f a).trace.drop c.trace.length, e ≠ .wc ∧ ∀ n, e ≠ .hwm n :=
+    ∀ e ∈ (act c f a).trace.drop c.trace.length, (∀ k, e ≠ .wc k) ∧ ∀ k n, e ≠ .hwm k n :=
   wc_hwm_only_via_queue c f a
 
 /-- … and when the loop reaches it, the callback is the first thing that happens, with the
-argument that was computed when it was scheduled -/
-theorem delivered_by_loop (c : Conn) (n : Nat) (ha : c.alive = true) :
-    (∃ s, (runTask c .writeComplete).trace = c.trace ++ Ev.wc :: s ∧ ∀ x ∈ s, x.isQueuedCb = false) ∧
-    (∃ s, (runTask c (.highWater n)).trace = c.trace ++ Ev.hwm n :: s ∧ ∀ x ∈ s, x.isQueuedCb = false) :=
-  ⟨runTask_wc c ha, runTask_hwm c n ha⟩
+argument that was computed when it was scheduled; the callback invoked is the one the functor carries
+(`Bound.resolve`: the copy, or - for a functor that holds a reference - whatever is installed now) -/
+theorem delivered_by_loop (c : Conn) (b : Bound) (n : Nat) (ha : c.alive = true) :
+    (∃ s, (runTask c (.writeComplete b)).trace = c.trace ++ Ev.wc (b.resolve c.wcId) :: s ∧ ∀ x ∈ s, x.isQueuedCb = false) ∧
+    (∃ s, (runTask c (.highWater b n)).trace = c.trace ++ Ev.hwm (b.resolve c.hwmId) n :: s ∧ ∀ x ∈ s, x.isQueuedCb = false) :=
+  ⟨runTask_wc c b ha, runTask_hwm c b n ha⟩
+
+/-- T1: at all three sites (`sendInLoop` x2, `handleWrite`) the notification functor is bound with a COPY of the
+user's callback (`std::bind(&notify.., weak, callback_member, ..)`), not with `std::ref/std::cref` of the member
+or a lambda that reads it later -/
+theorem callbacks_bound_by_value : wcBindSend = .byValue ∧ wcBindDrain = .byValue ∧ hwmBind = .byValue :=
+  ⟨rfl, rfl, rfl⟩
+
+/-- **delivered_is_scheduled_callback**: the callback that a notification delivers is the one that was
+installed when the notification was SCHEDULED, whatever `setWriteCompleteCallback` /
+`setHighWaterMarkCallback` calls (from the loop thread, from inside callbacks) happen before it is delivered:
+(1) every notification functor `sendInLoop` / `handleWrite` queue carries the identity installed in the state
+they ran in; (2) whenever the loop later runs such a functor - in ANY state `c'`, i.e. with any callbacks
+installed, removed (`0`) or marks changed since - exactly that identity is invoked, first thing, with the
+argument computed at scheduling time -/
+theorem delivered_is_scheduled_callback :
+    (∀ (c : Conn) (data : Bytes) (q : Bool), ∀ t ∈ (sendInLoop c data q).pending.drop c.pending.length,
+        t = .writeComplete (.val c.wcId) ∨ t = .highWater (.val c.hwmId) (sendInLoop c data q).outBuf.length) ∧
+    (∀ (c : Conn), ∀ t ∈ (handleWrite c).pending.drop c.pending.length,
+        t = .writeComplete (.val c.wcId) ∨ t = .drainShutdownInLoop) ∧
+    (∀ (c' : Conn) (k n : Nat), c'.alive = true →
+      (∃ s, (runTask c' (.writeComplete (.val k))).trace = c'.trace ++ Ev.wc k :: s ∧ ∀ x ∈ s, x.isQueuedCb = false) ∧
+      (∃ s, (runTask c' (.highWater (.val k) n)).trace = c'.trace ++ Ev.hwm k n :: s ∧ ∀ x ∈ s, x.isQueuedCb = false)) := by
+  refine ⟨?_, ?_, ?_⟩
+  · intro c data q t ht
+    have hs := send_schedules c data q
+    simp only at hs
+    rw [hs, List.append_assoc, List.drop_left] at ht
+    rcases List.mem_append.mp ht with h | h
+    · split at h
+      · exact Or.inl (List.mem_singleton.mp h)
+      · cases h
+    · split at h
+      · exact Or.inr (List.mem_singleton.mp h)
+      · cases h
+  · intro c t ht
+    have hs : (handleWrite c).pending = _ := handleWrite_sched c
+    rw [hs, List.append_assoc, List.drop_left] at ht
+    rcases List.mem_append.mp ht with h | h
+    · split at h
+      · exact Or.inl (List.mem_singleton.mp h)
+      · cases h
+    · split at h
+      · exact Or.inr (List.mem_singleton.mp h)
+      · cases h
+  · intro c' k n ha
+    exact ⟨runTask_wc c' (.val k) ha, runTask_hwm c' (.val k) n ha⟩
+
+/-- installing a callback (and a mark) takes effect for what is scheduled FROM NOW ON and touches nothing that
+is already queued: the functor queue, the backlog and the trace are unchanged -/
+theorem set_callback_frame (c : Conn) (f : Bool) :
+    (∀ k, (act c f (.setWc k)).pending = c.pending ∧ (act c f (.setWc k)).batch = c.batch
+        ∧ (act c f (.setWc k)).outBuf = c.outBuf ∧ (act c f (.setWc k)).trace = c.trace
+        ∧ (act c f (.setWc k)).wcId = k ∧ (act c f (.setWc k)).hasWC = decide (k ≠ 0)) ∧
+    (∀ k m, (act c f (.setHwm k m)).pending = c.pending ∧ (act c f (.setHwm k m)).batch = c.batch
+        ∧ (act c f (.setHwm k m)).outBuf = c.outBuf ∧ (act c f (.setHwm k m)).trace = c.trace
+        ∧ (act c f (.setHwm k m)).hwmId = k ∧ (act c f (.setHwm k m)).hasHWM = decide (k ≠ 0)
+        ∧ (act c f (.setHwm k m)).mark = m) :=
+  ⟨fun _ => ⟨rfl, rfl, rfl, rfl, rfl, rfl⟩, fun _ _ => ⟨rfl, rfl, rfl, rfl, rfl, rfl, rfl⟩⟩
+
+/-- **hwm_uses_current_mark**: after `setHighWaterMarkCallback(k, m)` the next send reports a crossing iff a
+callback was installed (`k ≠ 0`) and THIS send raised the backlog from below the NEW mark `m` to at least `m`;
+the functor carries `k` and the new backlog -/
+theorem hwm_uses_current_mark (c : Conn) (f : Bool) (k m : Nat) (data : Bytes) (q : Bool) :
+    let c' := sendInLoop (act c f (.setHwm k m)) data q
+    ∀ b n, Task.highWater b n ∈ c'.pending.drop c.pending.length ↔
+      (k ≠ 0 ∧ c.outBuf.length < m ∧ m ≤ c'.outBuf.length ∧ c.outBuf.length < c'.outBuf.length
+        ∧ b = .val k ∧ n = c'.outBuf.length) := by
+  intro c' b n
+  have hs := send_schedules (act c f (.setHwm k m)) data q
+  simp only at hs
+  have e1 : (act c f (.setHwm k m)).pending = c.pending := rfl
+  have e2 : (act c f (.setHwm k m)).outBuf = c.outBuf := rfl
+  have e3 : (act c f (.setHwm k m)).mark = m := rfl
+  have e4 : (act c f (.setHwm k m)).hwmId = k := rfl
+  have e5 : (act c f (.setHwm k m)).hasHWM = decide (k ≠ 0) := rfl
+  show Task.highWater b n ∈ (sendInLoop (act c f (.setHwm k m)) data q).pending.drop c.pending.length ↔ _
+  rw [hs, e1, e2, e3, e4, e5, List.append_assoc, List.drop_left]
+  constructor
+  · intro h
+    rcases List.mem_append.mp h with h | h
+    · split at h
+      · have := List.mem_singleton.mp h; cases this
+      · cases h
+    · split at h
+      · rename_i hc
+        have := List.mem_singleton.mp h
+        injection this with hb hn
+        exact ⟨by simpa using hc.1, hc.2.1, hc.2.2.1, hc.2.2.2, hb, hn⟩
+      · cases h
+  · rintro ⟨hk, h1, h2, h3, hb, hn⟩
+    apply List.mem_append_right
+    rw [if_pos ⟨by simpa using hk, h1, h2, h3⟩, hb, hn]
+    exact List.mem_singleton.mpr rfl
 
 /-- no other functor runs either callback -/
-theorem only_those_functors (c : Conn) (t : Task) (h1 : t ≠ .writeComplete) (h2 : ∀ n, t ≠ .highWater n) :
+theorem only_those_functors (c : Conn) (t : Task) (h1 : ∀ b, t ≠ .writeComplete b) (h2 : ∀ b n, t ≠ .highWater b n) :
     TraceExt c (runTask c t) :=
   runTask_other_tx c t h1 h2
 
@@ -116,7 +215,24 @@ theorem crossing_test (old rem mark : Nat) (has : Bool) :
 /-- non-vacuity: mark 10, backlog 4, a send of 8 bytes none of which is written: `highWater 12` -/
 example :
     let c : Conn := { st := .kConnected, mark := 10, outBuf := [0, 0, 0, 0], ch := { evWrite := true, evRead := true, slot := .added, watch := true } }
-    (sendInLoop c [1, 2, 3, 4, 5, 6, 7, 8] false).pending = [Task.highWater 12] := by decide
+    (sendInLoop c [1, 2, 3, 4, 5, 6, 7, 8] false).pending = [Task.highWater (.val 1) 12] := by decide
+
+/-- non-vacuity of `delivered_is_scheduled_callback`: a send taken whole schedules the write-complete callback
+installed then (1); another one (2) - or none (0) - is installed before the loop runs its functors; (1) is
+delivered.  High-water: callback 1 with mark 5 is crossed (backlog 8); callback 2 with mark 100 is installed
+before delivery; (1) is told about 8 -/
+example :
+    (run (step {} .establish) [.envWrite (.took 3), .act false (.send [1, 2, 3]), .act false (.setWc 2), .iter []]).trace
+      = [.up, .sysWrite 3 (.took 3), .wc 1] ∧
+    (run (step {} .establish) [.envWrite (.took 3), .act false (.send [1, 2, 3]), .act false (.setWc 0), .iter []]).trace
+      = [.up, .sysWrite 3 (.took 3), .wc 1] ∧
+    (run (step {} .establish) [.act false (.setHwm 1 5), .envWrite (.err 11), .act false (.send [1, 2, 3, 4, 5, 6, 7, 8]),
+        .act false (.setHwm 2 100), .iter []]).trace
+      = [.up, .sysWrite 8 (.err 11), .hwm 1 8] ∧
+    -- … while what is scheduled afterwards uses the new callback and the new mark
+    (run (step {} .establish) [.act false (.setHwm 1 5), .envWrite (.err 11), .act false (.send [1, 2, 3, 4, 5, 6, 7, 8]),
+        .act false (.setHwm 2 10), .act false (.send [9, 9]), .iter []]).trace
+      = [.up, .sysWrite 8 (.err 11), .hwm 1 8, .hwm 2 10] := by decide
 
 /-- T1, statement order: in every `TcpConnection` member function the model implements (and in
 `Channel::handleEventWithGuard`) the source performs the same significant actions - state stores, channel
